@@ -245,7 +245,7 @@ func WriteExtendedForgeShort(wr io.Writer, toWrite int) (err error) {
 	if high != 0 {
 		low = low | 0x8000
 	}
-	if err = WriteInt8(wr, int8(low)); err != nil {
+	if err = WriteUint16(wr, uint16(low)); err != nil {
 		return err
 	}
 	if high != 0 {
